@@ -145,6 +145,9 @@ func c13(ctx *Ctx) (*Outcome, error) {
 		g := sg.NewGen(r, o)
 		root := g.Root()
 		root.ID = "https://example.com/spell"
+		// the declared draft is the same in every spelling of one schema; what the spellings mean must not depend on it
+		root.Version = []string{"", "http://json-schema.org/draft-04/schema#", "http://json-schema.org/draft-06/schema#", "http://json-schema.org/draft-07/schema#",
+			"https://json-schema.org/draft/2019-09/schema", "https://json-schema.org/draft/2020-12/schema"}[i%6]
 		if i%3 == 0 {
 			// nested mappings whose keys are all non-strings when written bare (exercises recursive key fixing)
 			leaf := &sg.Schema{Types: []string{"object"}, Props: []sg.Prop{{Name: "true", S: &sg.Schema{Types: []string{"string"}}}, {Name: "9", S: &sg.Schema{Types: []string{"integer"}}}}, Required: []string{"9"}}
@@ -177,7 +180,7 @@ func c13(ctx *Ctx) (*Outcome, error) {
 		if i%5 == 4 {
 			// a "type library": the root carries nothing but an id and definitions (also reached through an external $ref
 			// is not needed: the root document itself shows whether the two definition spellings are treated alike)
-			lib := &sg.Schema{ID: "https://example.com/spell", Defs: root.Defs}
+			lib := &sg.Schema{ID: "https://example.com/spell", Version: root.Version, Defs: root.Defs}
 			if len(lib.Defs) == 0 {
 				lib.Defs = []sg.Prop{{Name: "Thing", S: &sg.Schema{Types: []string{"object"}, Props: []sg.Prop{{Name: "n", S: &sg.Schema{Types: []string{"integer"}}}}}}}
 			}
